@@ -4,6 +4,8 @@
  *
  * behaviour file (one command per line, tokens separated by blanks):
  *   reset <unit>                         memory sizes are given/logged in multiples of <unit> bytes
+ *   !<command>                           perform the command without writing an event (set-up of the initial topology)
+ *   snap <s>                             event with the projection of topology slot s (end of the set-up)
  *   load <s> <str>                       topology slot s := synthetic topology <str>, one unit of memory in each NUMA node
  *   dup <dst> <src>                      hwloc_topology_dup
  *   setname <s> <d> <i> <str>            obj->name = strdup(str) (or NULL), as tests/hwloc/hwloc_topology_diff.c edits fields
@@ -31,6 +33,8 @@ static hwloc_topology_diff_t diffs[ND + 1];
 static unsigned long long unit = 1;
 static int beh_off;
 static char tmpxml[4096];
+static int quiet;                         /* commands prefixed with '!' are performed without an event */
+#define END() do { if (quiet) hwv_len = hwv_commit; else out_end(); } while (0)
 
 static int hexv(int c) { return c >= '0' && c <= '9' ? c - '0' : c >= 'a' && c <= 'f' ? c - 'a' + 10 : c >= 'A' && c <= 'F' ? c - 'A' + 10 : 0; }
 /* decode a string token in place; returns NULL for "-" */
@@ -169,7 +173,13 @@ static void do_load(char *p) {
       for (a = o; a; a = a->parent) a->total_memory += unit;
     }
   }
-  out("{\"e\":\"Load\",\"s\":%d,\"desc\":", s); out_jstr(desc); out(",\"ret\":%d,\"P\":", ret); out_proj(topo[s]); out("}"); out_end();
+  out("{\"e\":\"Load\",\"s\":%d,\"desc\":", s); out_jstr(desc); out(",\"ret\":%d,\"P\":", ret); out_proj(topo[s]); out("}"); END();
+}
+
+static void do_snap(char *p) {
+  int s = (int)hwv_tokl(&p);
+  if (!slot_ok(s)) return;
+  out("{\"e\":\"Snap\",\"s\":%d,\"P\":", s); out_proj(topo[s]); out("}"); out_end();
 }
 
 static void do_dup(char *p) {
@@ -179,7 +189,7 @@ static void do_dup(char *p) {
   ret = hwloc_topology_dup(&topo[dst], topo[src]);
   if (ret) topo[dst] = NULL;
   out("{\"e\":\"Dup\",\"dst\":%d,\"src\":%d,\"ret\":%d,\"P\":", dst, src, ret); out_proj(topo[dst]);
-  out(",\"PS\":"); out_proj(topo[src]); out("}"); out_end();
+  out(",\"PS\":"); out_proj(topo[src]); out("}"); END();
 }
 
 static void do_edit(const char *k, char *p) {
@@ -232,7 +242,7 @@ static void do_edit(const char *k, char *p) {
     } else return;
   }
   out("{\"e\":\"Edit\",\"k\":\"%s\",\"s\":%d,\"d\":%d,\"i\":%d,\"n\":", k, s, d, i); out_ostr(n);
-  out(",\"v\":"); out_ostr(v); out(",\"x\":%ld,\"occ\":%d,\"ret\":%d,\"P\":", x, occ, ret); out_proj(topo[s]); out("}"); out_end();
+  out(",\"v\":"); out_ostr(v); out(",\"x\":%ld,\"occ\":%d,\"ret\":%d,\"P\":", x, occ, ret); out_proj(topo[s]); out("}"); END();
 }
 
 static void do_build(char *p) {
@@ -246,7 +256,7 @@ static void do_build(char *p) {
   if (ret >= 0) diffs[dd] = d;
   out("{\"e\":\"Build\",\"dd\":%d,\"a\":%d,\"b\":%d,\"flags\":%lu,\"ret\":%d,\"errno\":\"%s\",\"E\":", dd, a, b, flags, ret, ret < 0 ? errname(e) : "0");
   out_entries(diffs[dd]);
-  out(",\"PA\":"); out_proj(topo[a]); out(",\"PB\":"); out_proj(topo[b]); out("}"); out_end();
+  out(",\"PA\":"); out_proj(topo[a]); out(",\"PB\":"); out_proj(topo[b]); out("}"); END();
 }
 
 static void do_mk(char *p) {
@@ -285,7 +295,7 @@ static void do_mk(char *p) {
     last = e;
   }
   diffs[dd] = first;
-  out("{\"e\":\"Mk\",\"dd\":%d,\"E\":", dd); out_entries(diffs[dd]); out("}"); out_end();
+  out("{\"e\":\"Mk\",\"dd\":%d,\"E\":", dd); out_entries(diffs[dd]); out("}"); END();
 }
 
 static void do_apply(char *p) {
@@ -295,7 +305,7 @@ static void do_apply(char *p) {
   ret = hwloc_topology_diff_apply(topo[s], diffs[dd], flags);
   e = errno;
   out("{\"e\":\"Apply\",\"s\":%d,\"dd\":%d,\"flags\":%lu,\"ret\":%d,\"errno\":\"%s\",\"P\":", s, dd, flags, ret, ret < 0 ? errname(e) : "0");
-  out_proj(topo[s]); out(",\"E\":"); out_entries(diffs[dd]); out("}"); out_end();
+  out_proj(topo[s]); out(",\"E\":"); out_entries(diffs[dd]); out("}"); END();
 }
 
 static void do_xml(char *p) {
@@ -320,7 +330,7 @@ static void do_xml(char *p) {
   if (lret == 0) diffs[d2] = nd;
   out("{\"e\":\"Xml\",\"dd\":%d,\"d2\":%d,\"mode\":\"%s\",\"ref\":", dd, d2, isfile ? "file" : "buf"); out_ostr(ref);
   out(",\"eret\":%d,\"lret\":%d,\"ref2\":", eret, lret); out_ostr(lret == 0 ? ref2 : NULL);
-  out(",\"E2\":"); out_entries(diffs[d2]); out(",\"E\":"); out_entries(diffs[dd]); out("}"); out_end();
+  out(",\"E2\":"); out_entries(diffs[d2]); out(",\"E\":"); out_entries(diffs[dd]); out("}"); END();
   free(ref2);
 }
 
@@ -328,7 +338,7 @@ static void do_free(char *p) {
   int dd = (int)hwv_tokl(&p), ret;
   if (!dslot_ok(dd)) return;
   ret = hwloc_topology_diff_destroy(diffs[dd]); diffs[dd] = NULL;
-  out("{\"e\":\"Free\",\"dd\":%d,\"ret\":%d}", dd, ret); out_end();
+  out("{\"e\":\"Free\",\"dd\":%d,\"ret\":%d}", dd, ret); END();
 }
 
 static void handler(char **lines, size_t n, int beh) {
@@ -336,7 +346,10 @@ static void handler(char **lines, size_t n, int beh) {
   for (i = 0; i < n; i++) {
     char *line = strdup(lines[i]), *p = line; char *cmd = hwv_tok(&p);
     if (!cmd) { free(line); continue; }
+    quiet = cmd[0] == '!';
+    if (quiet) cmd++;
     if (!strcmp(cmd, "reset")) do_reset(p, beh);
+    else if (!strcmp(cmd, "snap")) do_snap(p);
     else if (!strcmp(cmd, "load")) do_load(p);
     else if (!strcmp(cmd, "dup")) do_dup(p);
     else if (!strcmp(cmd, "build")) do_build(p);
